@@ -12,6 +12,11 @@ BASE_FILES = {
                      "dictionary": True, "page_version": 2, "codec": "GZIP", "level_runs": "mixed"},
     "double_req": {"columns": [{"name": "d", "type": "DOUBLE", "optional": False}], "row_groups": [{"pages": [[(1.5,), (-2.0,)], [(0.0,)]]}],
                    "level_runs": "bitpacked"},
+    "delta_v1": {"columns": [{"name": "x", "type": "INT64", "optional": True}, {"name": "s", "type": "BYTE_ARRAY", "optional": False, "converted": "UTF8"}],
+                 "row_groups": [{"pages": [[(10, "apple"), (None, "apricot"), (7, "banana"), (2 ** 40, "band")], [(5, "c")]]}],
+                 "value_encoding": "delta", "delta_strings": "prefix"},
+    "delta_len_bss_v2": {"columns": [{"name": "f", "type": "DOUBLE", "optional": False}, {"name": "s", "type": "BYTE_ARRAY", "optional": True}],
+                         "row_groups": [{"pages": [[(1.5, b"ab"), (2.5, None), (-1.0, b"abcdefgh")]]}], "page_version": 2, "value_encoding": "delta+bss"},
 }
 LIE_VALUES = {"neg": lambda v: -abs(v) - 1, "zero": lambda v: 0, "plus1": lambda v: v + 1, "minus1": lambda v: v - 1,
               "i32max": lambda v: 2 ** 31 - 1, "i64max": lambda v: 2 ** 63 - 1}
@@ -125,7 +130,7 @@ def run(tier):
             m = meta[mm["mismatch"]]
             ln = lines[mm["mismatch"]]
             first = (m.get("msg", "") or "").split(" || ")[0].split("\nnote:")[0]
-            if "allocation of" in first:
+            if "allocation of" in first or "bytes failed" in first:
                 first = "memory allocation failed"
             sig = {"family": "fault", "format": "csv" if m["base"] == "csv" else "parquet", "observed": ln["outcome"],
                    "msg": vlib.re.sub(r"\d+", "#", first)[:150]}
